@@ -53,7 +53,12 @@ class Gen:
 
     def lit(self):
         if self.strings and self.r.random() < 0.25:
-            return "`" + "".join(self.r.choice("abc xy") for _ in range(self.r.randint(0, 3))) + "`"
+            k = self.r.random()
+            if k < 0.15:
+                return self.r.choice(["«ab«", "»1a»", "«x«", "»»"])
+            body = "".join(self.r.choice(["a", "b", " ", "x", "\\`", "\\n", "\\\\", "|", ";", "]"])
+                           for _ in range(self.r.randint(0, 3)))
+            return "`" + body + "`"
         return self.r.choice(self.literals) + " "
 
     def atom(self):
